@@ -21,6 +21,7 @@ function has_a(o) { return 'a' in o; }
 function glob_g() { return typeof G1 === 'undefined' ? 'no-G1' : G1; }
 function glob_set(v) { G2 = v; return G2; }
 function key_order(o) { var s = ''; for (var k in o) s += k + ','; return s; }
+function set_proto_no_cycle(o, p) { for (var q = p, n = 0; q !== null && q !== undefined && n < 64; n++) { if (q === o) return 'cycle-skipped'; q = Object.getPrototypeOf(q); } return Object.setPrototypeOf(o, p); }
 class Base { get acc() { return 'base-acc'; } meth() { return 'base-meth'; } }
 class Derived extends Base { sget() { return super.acc; } smeth() { return super.meth(); } sset(v) { super.sv = v; return this.sv; } }
 function super_get(o) { return o.sget ? o.sget() : 'n/a'; }
@@ -74,8 +75,9 @@ def new_object(r, npool):
     return "{%s}" % props
 
 
-def mutation(r, npool):
-    t = "POOL[%d]" % r.below(npool)
+def mutation(r, npool, proxies=()):
+    ti = r.below(npool)
+    t = "POOL[%d]" % ti
     p = r.choice(["a", "b", "c", "x", "m", "length"])
     k = r.below(22)
     if k < 3:
@@ -87,7 +89,10 @@ def mutation(r, npool):
     if k == 5:
         return "Object.defineProperty(%s, '%s', {value: %s, writable: %s, configurable: true, enumerable: true});" % (t, p, value(r), r.choice(["true", "false"]))
     if k == 6:
-        return "Object.setPrototypeOf(%s, %s);" % (t, r.choice(["POOL[%d]" % r.below(npool), "null", "Base.prototype", "Array.prototype", "{a: 'fresh-proto', m() { return 'pm'; }}"]))
+        # open finding K7: a prototype cycle through a Proxy is unbounded native recursion in boa (the process dies);
+        # once a Proxy exists, prototypes are only changed through a helper that refuses to close a cycle
+        fn = "set_proto_no_cycle" if proxies else "Object.setPrototypeOf"
+        return fn + "(%s, %s);" % (t, r.choice(["POOL[%d]" % r.below(npool), "null", "Base.prototype", "Array.prototype", "{a: 'fresh-proto', m() { return 'pm'; }}"]))
     if k == 7:
         return "Object.freeze(%s);" % t
     if k == 8:
@@ -123,15 +128,22 @@ def generate(seed, index):
     r = Rng(seed, "shape", index)
     npool = 2 + r.below(5)
     lines = [SITES, "var POOL = [];"]
+    proxies = set()
     for i in range(npool):
-        lines.append("POOL.push(%s);" % new_object(r, i))
+        o = new_object(r, i)
+        if "new Proxy" in o:
+            proxies.add(i)
+        lines.append("POOL.push(%s);" % o)
     lines.append("probe('init'); probe('warm');")
     nsteps = 5 + r.below(30)
     for s in range(nsteps):
         if r.chance(0.12):
-            lines.append("POOL[%d] = %s;" % (r.below(npool), new_object(r, npool)))
+            i, o = r.below(npool), new_object(r, npool)
+            if "new Proxy" in o:   # never discarded: a replaced Proxy may still be on somebody's prototype chain
+                proxies.add(i)
+            lines.append("POOL[%d] = %s;" % (i, o))
         else:
-            lines.append("try { %s } catch (e) { print('mutation threw', e); }" % mutation(r, npool))
+            lines.append("try { %s } catch (e) { print('mutation threw', e); }" % mutation(r, npool, proxies))
         lines.append("probe('s%d');" % s)
         if r.chance(0.3):
             lines.append("probe('s%d-again');" % s)
